@@ -200,10 +200,13 @@ class GoFE:
             if f.repeat:
                 et = self.prog.under(gf['type'])
                 if et['kind'] != 'slice':
-                    raise Unsupported('repeat field %s is not a slice in Go' % f.name)
+                    # the member the emitted type gives a repeated field cannot hold a list: the declared field has no member
+                    raise MissingMember('packet %s: the member of repeated field %s is no list (Go type %s)' % (packet.name, f.name, self.prog.tstr(gf['type'])))
                 items = [self.elem_to_lang(sem, x, et['elem']) for x in v]
                 vals.append(Slice(Cell(items), 0, len(items), len(items)) if items else None)
             else:
+                if self.prog.under(gf['type'])['kind'] == 'slice' and sem[0] not in ('fixed', 'dyn'):
+                    raise MissingMember('packet %s: the member of plain field %s is a list (Go type %s)' % (packet.name, f.name, self.prog.tstr(gf['type'])))
                 vals.append(self.elem_to_lang(sem, v, gf['type']))
         return Ptr(Cell(vals)), t['id']
 
